@@ -299,6 +299,13 @@ func (b *Board) handleValidatorPubKeyShareMessage(ctx context.Context, peerID pe
 		return nil, false, errors.New("validator pubkey share request session ID mismatch", z.Str("peer_id", peerID.String()))
 	}
 
+	// Drop byte-identical re-deliveries: shares carry no validator index, so a late duplicate
+	// would otherwise be taken as this peer's share for the next validator. Empty shares (sent
+	// by old nodes that leave in a reshare) are identical for every validator and are let through.
+	if share := protoMsg.GetPublicKeyShare(); len(share) > 0 && b.dedup.isDuplicate(valPubKeyShareMsg+peerID.String(), share) {
+		return nil, true, nil
+	}
+
 	vpks := ValidatorPubKeyShare{
 		PeerID:          peerID,
 		ValidatorPubKey: protoMsg.GetPublicKeyShare(),
